@@ -92,6 +92,7 @@ def c04(tier):
     s = run.seed
     defs = F.curated() + F.random_family(1300 + s, sizes(tier, 40, 400), nmax=4)
     run.add_jobs(jobs_for(defs, {"probe_reqs": True, "pause": 1, "cancel": 1, "max_nodes": sizes(tier, 2500, 8000)}, s))
+    run.add_jobs(jobs_for(F.curated_items()[:14], {"probe_reqs": True, "max_nodes": sizes(tier, 1500, 6000)}, s))
     # lazy provider: offered tasks may still be unstarted when the workflow terminates
     run.add_jobs(jobs_for(F.curated(), {"lazy": True, "max_nodes": sizes(tier, 1500, 6000)}, s))
     lz = F.random_family(1350 + s, sizes(tier, 40, 400), nmax=4)
@@ -136,17 +137,20 @@ def c07(tier):
 def c18(tier):
     run = P.Run("C18", tier, ["C18_"])
     s = run.seed
-    defs = F.curated() + F.random_family(1500 + s, sizes(tier, 80, 800), nmax=4, publish=True)
-    run.add_jobs(jobs_for(defs, {"pause": 1, "max_nodes": sizes(tier, 1500, 5000)}, s))
+    defs = F.curated() + F.random_family(1500 + s, sizes(tier, 40, 800), nmax=4, publish=True)
+    run.add_jobs(jobs_for(defs, {"pause": 1, "max_nodes": sizes(tier, 1000, 5000)}, s))
     more = F.curated_items() + F.curated_retry() + F.curated_ctx()
     run.add_jobs(jobs_for(more, {"pause": 1, "cancel": 1, "max_nodes": sizes(tier, 800, 5000)}, s, tok="visit"))
-    run.add_jobs(jobs_for(F.curated() + F.curated_items()[:9], {"rerun": 1, "rerun_tasks": True, "max_nodes": sizes(tier, 1500, 6000)}, s))
-    run.add_jobs(jobs_for(F.curated(), {"lazy": True, "sample": 3, "max_nodes": sizes(tier, 800, 4000)}, s))
-    joins = [d for d in F.curated() + F.curated_ctx() if any(t["join"] != 0 for t in d["tasks"].values())]
-    run.add_jobs(jobs_for(joins, {"lazy": True, "rerun": 1, "rerun_tasks": True, "sample": sizes(tier, 3, 4),
-                                  "max_nodes": sizes(tier, 1500, 8000)}, s))
-    small = [d for d in joins if len(d["tasks"]) <= 4]
-    run.add_jobs(jobs_for(small, {"lazy": True, "rerun": 1, "max_nodes": sizes(tier, 2500, 10000)}, s))
+    run.add_jobs(jobs_for(F.curated() + F.curated_items()[:9], {"rerun": 1, "rerun_tasks": True, "sample": sizes(tier, 3, 6),
+                                                                "max_nodes": sizes(tier, 800, 6000)}, s))
+    run.add_jobs(jobs_for(F.curated(), {"lazy": True, "sample": sizes(tier, 2, 3), "max_nodes": sizes(tier, 500, 4000)}, s))
+    joins = [d for d in F.curated() + F.curated_ctx() + F.curated_items() if any(t["join"] != 0 for t in d["tasks"].values())]
+    run.add_jobs(jobs_for(joins, {"lazy": True, "rerun": 1, "rerun_tasks": True, "sample": sizes(tier, 2, 4),
+                                  "max_nodes": sizes(tier, 600, 8000)}, s))
+    small = [d for d in joins if len(d["tasks"]) <= 4] + [d for d in F.curated_items() if d["name"] == "items_chain"]
+    if tier == "quick":
+        small = [d for d in small if d["name"] in ("join1_two_roots", "items_chain", "two_roots_join", "join_partial")]
+    run.add_jobs(jobs_for(small, {"lazy": True, "rerun": 1, "rerun_multi": "all", "max_nodes": sizes(tier, 6000, 20000)}, s))
     # recorded context snapshots holding nested values (dict published again with other keys, >= 3 entries merged)
     from . import datapath as DP
     paths, res = DP.enumerate_paths(run.tmp)
